@@ -199,6 +199,13 @@ func (rw *rewriter) file(f *ast.File) {
 		}
 		recvT := rw.info.TypeOf(sel.X)
 		switch namedType(recvT) {
+		case "context.Context":
+			// ctx.Err(): the moment csvq looks whether it has been cancelled (lib/query only)
+			if inQuery && sel.Sel.Name == "Err" && len(call.Args) == 0 {
+				call.Fun = &ast.SelectorExpr{X: ast.NewIdent("vfs"), Sel: ast.NewIdent("PollErr")}
+				call.Args = []ast.Expr{sel.X}
+				rw.hit("poll", "vfs")
+			}
 		case "os.File":
 			if fsFile && isPointer(recvT) {
 				to := map[string]string{"Truncate": "Truncate", "Write": "Write", "Close": "FileClose"}[sel.Sel.Name]
